@@ -11,7 +11,7 @@ and no fault.  Generic in the scanner; instantiated for the four real scanners.
 -/
 namespace Modbus.C11
 
-open Receiver
+open Receiver Reception
 
 variable {F : Type}
 
@@ -69,8 +69,7 @@ theorem drain_spec (fs : List (Bytes × F)) (hg : ∀ p ∈ fs, Good scanf p.1 p
       simp only [h0, dite_false]
       have hd : (f ++ b').drop (0 + f.length) = b' := by simp
       rw [hd, ih (fun p hp => hg p (by simp [hp])) b' (out ++ [x]) hb'']
-      have hle : f.length ≤ (f ++ b').length := by simp
-      simp [peel, hle]
+      simp [peel]
     · -- only a strict prefix of the next frame
       have hnle : ¬ f.length ≤ b.length := by omega
       by_cases hbe : b = []
